@@ -70,10 +70,13 @@ MIXED = {
  "C07": "Proved by pyvc+z3: DataServer.store_payload (an arrival is announced at most once, last, only after allocate(key of the dataset, len(bytes), the SOURCE's decoding function) -> write of exactly "
         "the payload bytes -> close; a redundant transfer is swallowed silently; every failure is reported, nothing raised) and DataServer.send_payload (a payload leaves only for a command addressed from "
         "this host to another, carries dataset id / the decoding function stored with the bytes / the command's index, goes to the commanded address; an opened buffer is always closed) - 47 VCs. "
-        "recv_loop / maybe_clean (retries, purge races, thread pool) stay bounded. ",
+        "DataServer.maybe_clean (a send whose future is taken off the books without an error has its completion time recorded under its transfer index - the record the retry pass works from; "
+        "no future is dropped unseen, for every number of futures and every timing of done()) - 67 VCs. recv_loop (retries, purge races, thread pool) stays bounded; the stand-in's pool "
+        "lets a job finish at any instant, also between two polls of one maybe_clean pass. ",
  "C08": "Proved by pyvc+z3: shm Manager.__init__/add/purge/page_out(+callback)/page_in(+callback)/get/close_callback against contracts over the WHOLE dataset map with the ghost aggregate 'used' "
         "(sum of in-memory sizes <= capacity preserved by every operation, nothing but the named key changes; 348 VCs). Assumed: Manager.page_out_at_least (6 of its 29 VCs time out) and the victim lottery. ",
- "C09": "Proved by pyvc+z3: Manager.is_pageoutable/get/close_callback/purge/page_out callback - a dataset with a live reader is never chosen or unlinked, delayed purge happens at the last close (283 VCs). ",
+ "C09": "Proved by pyvc+z3: Manager.is_pageoutable/get/close_callback/purge/page_out callback - a dataset with a live reader is never chosen or unlinked, delayed purge happens at the last close (283 VCs); Disk._page_out - the manager is told exactly once, last; success is reported, and the segment unlinked, only after the WHOLE buffer "
+        "of that segment was written to its spill file (opened for writing) and the file closed; nothing escapes the pool thread (18 VCs). ",
  "C10": "Proved by pyvc+z3: executor.runner.runner.run - the callable is invoked once, first, with every static argument and every upstream value (Memory.provide of the declared source) in its declared "
         "position / under its declared name and nothing else; one output: the result is stored under it; several outputs: the j-th yielded value is stored under the j-th declared output in key order, "
         "one store per output, and a count mismatch raises (task failure); low.func.ensure (84 VCs, loop invariants for every number of arguments / outputs). graph2job/node2task stay bounded. ",
